@@ -9,6 +9,7 @@ import CoapVerif.Lemmas.BlockNet
 import CoapVerif.Lemmas.BlockNetOnce
 import CoapVerif.Lemmas.BlockTok
 import CoapVerif.Lemmas.BlockAdl
+import CoapVerif.Lemmas.BlockNetTok
 /-
 C09 — block-wise transfer: the sender's body arrives intact, once, or the transfer fails explicitly.
 
@@ -1347,5 +1348,68 @@ example : adlExitReq 1152 4 2 11 none 0 6000 1 1 = .failSearch ∧ adlExitReq 11
 example : adlRun [.call 1 (.linked 6), .call 2 (.linked 6), .call 1 .released, .expire, .call 3 .failNew, .free] =
     ({ xmits := [], rel := [3, 1, 2, 0] }, 4) := by decide
 
+/-! ## Tokens in the composed Block2 system (round R09c, `Model/BlockNetTok.lean`)
+
+`b2tStep` = `b2Step` with a token on every datagram (the application's on the GET, `STATE_TOKEN_FULL(state_token,
+++retry_counter)` on every follow-up request, echoed by the server), the client's lg_crcv LIST with the lookup by token,
+`coap_block_new_lg_crcv`'s state token, `coap_send`'s replacement of an lg_crcv with the same application token, and the
+token `rcvd` carries when the handler sees it.  `hToks` records every handler call: the token shown and (ghost) the
+`STATE_TOKEN_BASE`s of the lg_crcvs released BEFORE that call. -/
+
+/-- C09 "handlers only ever see the application's own token, never one libcoap substituted on the wire", composed
+system, EVERY schedule (any loss / duplication / reordering of requests and responses, `sent` matched or not, time-outs
+of any lg_crcv and of the lg_xmit, repeated GETs with the same token), NO hypothesis on parameters, tokens or counters
+(`tx_token` and the 16-bit retry counter may wrap): as long as no lg_crcv of the session has been released, every
+response-handler call carries the application's token. -/
+theorem app_token_only_block2_composed (P : B2Par) (app : Bytes) (evs : List B2TEvent) :
+    ∀ x ∈ (b2tRun P app {} evs).hToks, x.2 = [] → x.1 = app := by
+  intro x hx hrel
+  rcases (b2tRun_inv P app evs {} (runInvT_init app)).shown x hx with h | h
+  · exact h
+  · rw [hrel] at h; cases h
+
+/-- …and the complement is exactly the open finding `c09-late-message-raw-token`: a handler call that shows a token other
+than the application's shows a token whose `STATE_TOKEN_BASE` is that of an lg_crcv that had been RELEASED before the
+call (completed, failed, timed out or replaced) — never one of a transfer whose state still exists. -/
+theorem raw_token_only_after_release (P : B2Par) (app : Bytes) (evs : List B2TEvent) :
+    ∀ x ∈ (b2tRun P app {} evs).hToks, x.1 ≠ app → stateTokenBase (decodeVar8 x.1) ∈ x.2 := by
+  intro x hx hne
+  rcases (b2tRun_inv P app evs {} (runInvT_init app)).shown x hx with h | h
+  · exact absurd h hne
+  · exact h
+
+/-- the same for ONE call in ANY session state satisfying the invariant (any number of lg_crcvs, e.g. other transfers'):
+a matched lg_crcv ⇒ its `app_token` is shown; the token shown is the application's or belongs to a released lg_crcv -/
+theorem handler_token_step (single : Bool) (cap : Nat) (junk : UInt8) (app : Bytes) (c : CliT) (sent : Bool)
+    (tok : Bytes) (r : Resp) (hent : ∀ e ∈ c.crcvs, AppOK app c.released e) (htok : TokOK app c tok) :
+    let res := crcvStepT single cap junk c (if sent then some tok else none) tok r
+    callsHandler res.2.out = true → res.2.shown = app ∨ stateTokenBase (decodeVar8 res.2.shown) ∈ c.released :=
+  (crcvStepT_spec single cap junk app c (if sent then some tok else none) tok r hent htok
+    (by intro st hst; split at hst <;> simp at hst; exact Or.inl hst.symm)).2.2.1
+
+/-- libcoap reads back from its own tokens the state token they were generated from (any retry count) -/
+theorem wire_token_roundtrip (st r : Nat) (hr : r < 65536) :
+    decodeVar8 (encodeVar8 (stateTokenFull st r)) = stateTokenFull st r ∧
+    stateTokenBase (decodeVar8 (encodeVar8 (stateTokenFull st r))) = stateTokenBase st :=
+  ⟨decode_encode8 _ (full_lt st r), base_wire st r hr⟩
+
+/-- Lean witness of the open finding `c09-late-message-raw-token` in the composed system: block 1 of a transfer is
+answered under the substituted token 0x200000000001; the lg_crcv times out; the (duplicated) response, matched to a
+request that is still queued, reaches the handler as "random access" with the wire token — and base 1 had been released.
+Without the time-out the same schedule shows the application's token only. -/
+example :
+    let app : Bytes := [0xa1, 0xa2]
+    let evs : List B2TEvent := [.appGet 0, .reqArrives 0, .rspArrives 0 true, .reqArrives 1, .cliExpire 0, .rspArrives 1 true]
+    let s := b2tRun (exPar false) app {} evs
+    s.reqToks = [app, [0x20, 0, 0, 0, 0, 1]] ∧ s.hToks = [(app, []), ([0x20, 0, 0, 0, 0, 1], [1])] := by
+  decide +kernel
+example :
+    let app : Bytes := [0xa1, 0xa2]
+    let evs : List B2TEvent := [.appGet 0, .reqArrives 0, .rspArrives 0 true, .reqArrives 1, .rspArrives 1 true,
+      .rspArrives 1 true, .reqArrives 2, .rspArrives 2 false]
+    let s := b2tRun (exPar false) app {} evs
+    s.reqToks = [app, [0x20, 0, 0, 0, 0, 1], [0x30, 0, 0, 0, 0, 1]] ∧ s.hToks.map (·.1) = [app, app, app] ∧
+    s.cli.crcvs.length = 0 ∧ s.cli.released = [1] := by
+  decide +kernel
 
 end Coap.C09
